@@ -179,3 +179,133 @@ Proof.
   intros tbl n fs s H. cbn [concat_frags] in H. unfold look_str in H.
   destruct (rvalue_of_sym tbl n) as [[first| | |]|]; try discriminate. eexists; reflexivity.
 Qed.
+
+(** ** the argument *)
+Theorem arg_meaning : forall tbl look c a s d,
+  agree tbl look ->
+  parse_path c a = PParsed s -> resolve tbl s = Ok d ->
+  ddv_parts_rel d = true -> explicit_ok tbl a = true ->
+  spec_arg look (c_default c) (c_here c) a = Some (ddv_meaning d).
+Proof.
+  intros tbl look c [rel st] s d A HP HR HD HE. unfold parse_path in HP. cbn [pa_rel pa_str] in HP.
+  unfold explicit_ok in HE. cbn [pa_rel] in HE. unfold spec_arg. cbn [pa_rel].
+  destruct rel as [|o|n| |]; [| | |discriminate|destruct st; discriminate].
+  - (* no relativity *)
+    destruct st as [t|].
+    + cbn [relativity_ctor] in HP. destruct (tok_is_reserved t); [discriminate|]. destruct (tok_is_optionlike t); [discriminate|].
+      destruct t as [q fs]. unfold without_explicit_relativity in HP. cbn [st_frags pa_str] in *.
+      destruct fs as [|f1 fs1]; [discriminate|].
+      destruct f1 as [c1|n1].
+      * destruct fs1 as [|f2 fs2].
+        -- injection HP as <-. unfold just_string_argument in HR. rewrite abs_iff in HR. cbn [subst option_map]. rewrite app_nil_r.
+           unfold resolve in HR. destruct (str_abs c1); cbn [resolve_sdv] in HR; injection HR as <-; reflexivity.
+        -- injection HP as <-. apply (meaning_default_string _ _ _ _ _ A HR HD).
+      * destruct fs1 as [|f2 fs2].
+        -- injection HP as <-. apply (meaning_ref tbl look n1 (c_acc c) [] (c_default c) d A HR HD eq_refl).
+        -- destruct f2 as [k|n2].
+           ++ destruct (str_abs k) eqn:SK; injection HP as <-.
+              ** apply (meaning_ref tbl look n1 (c_acc c) (FConst k :: fs2) (c_default c) d A HR HD). exact SK.
+              ** pose proof (meaning_default_string _ _ _ _ _ A HR HD) as HM.
+                 unfold resolve in HR. cbn [resolve_sdv resolve_psdv suffix_of_frags] in HR.
+                 destruct (concat_frags (rvalue_of_sym tbl) (FSym n1 :: FConst k :: fs2)) as [str|] eqn:HC; [|discriminate].
+                 destruct (look_str_head _ _ _ _ HC) as [first Hf]. rewrite (proj1 A n1 first Hf). exact HM.
+           ++ injection HP as <-. pose proof (meaning_default_string _ _ _ _ _ A HR HD) as HM.
+              unfold resolve in HR. cbn [resolve_sdv resolve_psdv suffix_of_frags] in HR.
+              destruct (concat_frags (rvalue_of_sym tbl) (FSym n1 :: FSym n2 :: fs2)) as [str|] eqn:HC; [|discriminate].
+              destruct (look_str_head _ _ _ _ HC) as [first Hf]. rewrite (proj1 A n1 first Hf). exact HM.
+    + destruct (c_suffix_required c); [discriminate|]. injection HP as <-. unfold resolve in HR. cbn [resolve_sdv] in HR.
+      injection HR as <-. reflexivity.
+  - (* a relativity option *)
+    cbn [relativity_ctor] in HP. destruct (rel_in o (v_rels (c_acc c))); [|destruct st; discriminate].
+    destruct st as [t|].
+    + destruct (tok_is_reserved t); [discriminate|]. destruct (tok_is_optionlike t); [discriminate|].
+      injection HP as <-. cbn [pa_str].
+      destruct (explicit_cases t (SRelOpt o)) as [[AC SA] | (p & EQ & HL)].
+      * rewrite (explicit_abs_excluded tbl (ROpt o) t AC SA) in HE. discriminate.
+      * rewrite EQ in HR. apply (meaning_rel_opt _ _ _ _ _ _ A HR). intros sfx. apply HL.
+    + destruct (c_suffix_required c); [discriminate|]. injection HP as <-. cbn [pa_str].
+      apply (meaning_rel_opt _ _ _ _ _ _ A HR). intros sfx H. cbn [resolve_psdv] in H. injection H as <-. reflexivity.
+  - (* -rel SYMBOL *)
+    cbn [relativity_ctor] in HP. destruct st as [t|].
+    + destruct (tok_is_reserved t); [discriminate|]. destruct (tok_is_optionlike t); [discriminate|].
+      injection HP as <-. cbn [pa_str].
+      destruct (explicit_cases t (SRelSym n (c_acc c))) as [[AC SA] | (p & EQ & HL)].
+      * rewrite (explicit_abs_excluded tbl (RSym n) t AC SA) in HE. discriminate.
+      * rewrite EQ in HR. apply (meaning_rel_sym _ _ _ _ _ _ _ A HR HD). intros sfx. apply HL.
+    + destruct (c_suffix_required c); [discriminate|]. injection HP as <-. cbn [pa_str].
+      apply (meaning_rel_sym _ _ _ _ _ _ _ A HR HD). intros sfx H. cbn [resolve_psdv] in H. injection H as <-. reflexivity.
+Qed.
+
+(** ** the table of definitions *)
+(** the guard on every path definition, in the table it is defined in *)
+Fixpoint defs_explicit_ok (here : text) (tbl : table) (defs : list (sym * sdef)) : bool :=
+  match defs with
+  | [] => true
+  | (n, d) :: rest =>
+      (match d with SDPath a => explicit_ok tbl a | _ => true end) &&
+      match compile_def here d with
+      | Some v => defs_explicit_ok here ((n, v) :: tbl) rest
+      | None => true
+      end
+  end.
+
+Lemma agree_nil : forall look, agree [] look.
+Proof. intros look. split; intros n x H; discriminate. Qed.
+
+Lemma agree_cons : forall here tbl0 sd0 n d v,
+  agree tbl0 (spec_sym here sd0) ->
+  compile_def here d = Some v ->
+  (match d with SDPath a => explicit_ok tbl0 a | _ => true end) = true ->
+  agree ((n, v) :: tbl0) (spec_sym here ((n, d) :: sd0)).
+Proof.
+  intros here tbl0 sd0 n d v A HC HG. split; intros k x H; cbn [rvalue_of_sym] in H; cbn [spec_sym]; destruct (N.eqb n k) eqn:E;
+    try (apply A; assumption).
+  - (* strings *)
+    destruct d as [fs | a | | ]; cbn [compile_def] in HC.
+    + injection HC as <-. destruct (concat_frags (rvalue_of_sym tbl0) fs) as [t|] eqn:CF; [|discriminate]. cbn [bind] in H.
+      injection H as <-. rewrite (agree_subst _ _ _ _ A CF). reflexivity.
+    + destruct (parse_path (def_conf here) a); try discriminate. injection HC as <-.
+      destruct (resolve_sdv (rvalue_of_sym tbl0) s); discriminate.
+    + injection HC as <-. discriminate.
+    + injection HC as <-. discriminate.
+  - (* paths *)
+    intros HP. destruct d as [fs | a | | ]; cbn [compile_def] in HC.
+    + injection HC as <-. destruct (concat_frags (rvalue_of_sym tbl0) fs); discriminate.
+    + destruct (parse_path (def_conf here) a) as [| |s0] eqn:PP0; try discriminate. injection HC as <-.
+      destruct (resolve_sdv (rvalue_of_sym tbl0) s0) as [d'|] eqn:R; [|discriminate]. cbn [bind] in H. injection H as <-.
+      pose proof (arg_meaning tbl0 (spec_sym here sd0) (def_conf here) a s0 d' A PP0 R HP HG) as HM.
+      cbn [def_conf c_default c_here] in HM. rewrite HM. reflexivity.
+    + injection HC as <-. discriminate.
+    + injection HC as <-. discriminate.
+Qed.
+
+Lemma run_defs_agree : forall defs here tbl0 sd0 i tbl,
+  agree tbl0 (spec_sym here sd0) ->
+  run_defs here tbl0 i defs = (None, tbl) -> defs_explicit_ok here tbl0 defs = true ->
+  agree tbl (spec_sym here (rev defs ++ sd0)).
+Proof.
+  induction defs as [|[n d] defs IH]; intros here tbl0 sd0 i tbl A HR HG; cbn [run_defs] in HR.
+  - injection HR as <-. exact A.
+  - cbn [defs_explicit_ok] in HG. apply andb_true_iff in HG as [HG1 HG2].
+    destruct (compile_def here d) as [v|] eqn:CD; [|discriminate].
+    unfold validate_def in HR. destruct (contains tbl0 n); [discriminate|].
+    destruct (validate_refs tbl0 (value_refs v)); try discriminate.
+    cbn [rev]. rewrite <- app_assoc. cbn [app].
+    eapply IH; [apply agree_cons; eassumption | exact HR | exact HG2].
+Qed.
+
+(** The resolved value of an argument is its documented meaning: for every list of definitions that symbol
+    validation accepts, every argument configuration, every argument. *)
+Theorem argument_meaning : forall here defs tbl c a s d,
+  run_defs here [] 0 defs = (None, tbl) ->
+  c_here c = None ->
+  parse_path c a = PParsed s -> resolve tbl s = Ok d ->
+  ddv_parts_rel d = true -> explicit_ok tbl a = true -> defs_explicit_ok here [] defs = true ->
+  exists m, spec_meaning here defs (c_default c) a = Some m /\
+            (forall e, ddv_value e d = denote e m) /\ ddv_relativity d = meaning_rel m.
+Proof.
+  intros here defs tbl c a s d HRun HH HP HR HD HE HG. exists (ddv_meaning d).
+  pose proof (run_defs_agree defs here [] [] 0 tbl (agree_nil _) HRun HG) as A. rewrite app_nil_r in A.
+  pose proof (arg_meaning _ _ _ _ _ _ A HP HR HD HE) as HM. rewrite HH in HM.
+  split; [exact HM | apply ddv_meaning_sound; assumption].
+Qed.
